@@ -195,6 +195,63 @@ def check_sort(ld, vals, backing, upstream, reverse, res):
                           {'items': got, 'want': want, 'keys': keys}, sig=sig)
 
 
+def check_dupkeys(ld, vals, how, reverse, res):
+    """sort / groupby on top of a combination whose parts share example keys
+    (an augmented copy interspersed / concatenated / tiled): examples are still
+    a permutation / a partition; keys() and items() of the result are either
+    refused loudly or every key is the example's own."""
+    n = len(vals)
+    case = {'op': 'sort-over-shared-keys', 'vals': list(vals), 'how': how,
+            'reverse': reverse}
+    res.case(('dupkeys', tuple(vals), how, reverse), n >= 2)
+    base = ld.new({key_of(i, n): {'id': i, 'v': v} for i, v in enumerate(vals)})
+    aug = base.map(lambda e: {**e, 'aug': True})
+    sig = {'op': 'sort', 'keyed': True, 'shared_keys': how}
+    try:
+        if how == 'intersperse':
+            if n == 0:
+                return          # an intersperse of empty datasets is not offered
+            ds = base.intersperse(aug)
+        elif how == 'concat':
+            ds = base.concatenate(aug)
+        else:
+            ds = base.tile(2)
+        out_ds = ds.sort(lambda e: e['v'], reverse=reverse)
+        out = list(out_ds)
+        groups = ds.groupby(lambda e: e['v'])
+        gl = {g: list(d_) for g, d_ in groups.items()}
+    except BaseException as e:
+        res.violation('sort-raised', case, exc_sig(e), sig=sig)
+        return
+    res.count('sorts_over_shared_keys_checked')
+    if sorted(e['id'] for e in out) != sorted(list(range(n)) * 2) or \
+            not monotone([e['v'] for e in out], reverse):
+        res.violation('sort-not-a-permutation', case, {'out': out}, sig=sig)
+        return
+    if sorted(e['id'] for g in gl.values() for e in g) != sorted(list(range(n)) * 2) or \
+            any(e['v'] != g for g, l in gl.items() for e in l):
+        res.violation('groups-not-a-partition', case, {'groups': gl}, sig=sig)
+        return
+    for name, d_, seq in [('sorted', out_ds, out)] + \
+            [(f'group {g}', groups[g], gl[g]) for g in gl]:
+        for what in ('keys', 'items'):
+            try:
+                got = list(d_.keys()) if what == 'keys' else list(d_.items())
+            except BaseException:
+                res.count('keys_over_shared_keys_refused')
+                continue
+            res.count('keys_over_shared_keys_returned')
+            ids = [e['id'] for e in seq]
+            if what == 'keys':
+                ok = got == [key_of(i, n) for i in ids]
+            else:
+                ok = [(k, e['id']) for k, e in got] == [(key_of(i, n), i) for i in ids]
+            if not ok:
+                res.violation('sorted-keys-detached', {**case, 'of': name, 'asked': what},
+                              {'got': repr(got)[:300], 'ids_in_order': ids}, sig=sig)
+                return
+
+
 def check_custom_sort_fn(ld, vals, reverse, res):
     case = {'op': 'sort_fn', 'vals': list(vals), 'reverse': reverse}
     res.case(('sort_fn', tuple(vals), reverse), len(vals) >= 2)
@@ -351,6 +408,7 @@ def shards(tier, seed):
             out.append({'name': f'group-{up}-{backing}', 'what': 'group',
                         'upstream': up, 'backing': backing, **lim})
     out.append({'name': 'keyless', 'what': 'keyless', **lim})
+    out.append({'name': 'dupkeys', 'what': 'dupkeys', **lim})
     out.append({'name': 'sortfn', 'what': 'sortfn', **lim})
     return out
 
@@ -386,6 +444,12 @@ def run_shard(spec, res):
             for idkind in ('int', 'none-mixed'):
                 check_groupby(ld, vals, spec['backing'], spec['upstream'], idkind, res)
                 res.count('large_groupbys_checked')
+    elif spec['what'] == 'dupkeys':
+        for n in range(0, L):
+            for vals in itertools.product((0, 1, 2), repeat=n):
+                for how in ('intersperse', 'concat', 'tile'):
+                    for reverse in (False, True):
+                        check_dupkeys(ld, vals, how, reverse, res)
     elif spec['what'] == 'keyless':
         for n in range(0, spec['LK'] + 1):
             for perm in itertools.permutations(range(n)):
@@ -428,6 +492,8 @@ def replay(case, res):
         check_sort(ld, case['vals'], case['backing'], case['upstream'], case['reverse'], res)
     elif op == 'sort_fn':
         check_custom_sort_fn(ld, case['vals'], case['reverse'], res)
+    elif op == 'sort-over-shared-keys':
+        check_dupkeys(ld, case['vals'], case['how'], case['reverse'], res)
     elif op == 'sort-keyless':
         check_keyless(ld, case['key_order'], case['reverse'], case['upstream'], res)
     elif op == 'sort-domain':
